@@ -72,6 +72,10 @@ def adversarial_variants(ec, seed, msg, ph):
     for i, e in enumerate(so):
         yield "A=smallorder%d" % i, sig, msg, e
         yield "R=smallorder%d" % i, e + sig[32:], msg, pk
+        # small-order R (every encoding, canonical or alias) with S derived for it: S = H(R||A||M)*a, i.e. the signature a signer with nonce r = 0
+        # shifted by that torsion point would produce - the cofactored equation holds, only the small-order test on R can refuse it
+        he = int.from_bytes(ec.sha512(dom, e, pk, m), "little") % L
+        yield "R=smallorder%d,S=h*a" % i, e + ((he * a) % L).to_bytes(32, "little"), msg, pk
         # small-order A with a signature that satisfies the plain equation for it: S = r (h*A has small order)
         yield "A=smallorder%d,S=r" % i, R + r.to_bytes(32, "little"), msg, e
     # non-canonical aliases of A / R (exist only when y < 19, or x == 0): try to construct them
